@@ -45,16 +45,23 @@ TRUSTED = [
     "hashlib.sha256 has no collision on the texts used; pickle.load(pickle.dump(x)) fidelity is "
     "checked per entry by fingerprint, not proved",
 ]
-RULE = ("case = history of 2..6 runs (text, flag) over 1..4 generated meta-model texts (valid with "
-        "enum + class hierarchy + invariant, or broken in 5 ways) sharing one temp directory; "
+RULE = ("case = history of 2..6 runs (text, flag) over 1..4 generated meta-model texts (valid: 70% with "
+        "an inheritance chain of depth 3..4 + a diamond + constrained-primitive chain + constant set, "
+        "30% two-level hierarchy; or broken in 5 ways) sharing one temp directory; results are compared "
+        "by structure fingerprint AND by the answers to every public query of the symbol table "
+        "(enumerated by reflection); "
         "non-trivial = the history contains a real cache hit or a cached write; distinct by the "
         "sequence of (text hash, flag). CLI scenarios: same histories through main.main for "
-        "targets jsonschema / python.")
+        "targets typescript (asks is_subclass_of) / jsonschema / python.")
 
 SNIPPETS = {
     "jsonschema": {"schema_base.json": '{\n  "$schema": "https://json-schema.org/draft/2019-09/schema",\n'
                                        '  "title": "DummyForTest",\n  "type": "object"\n}\n'},
     "python": {"qualified_module_name.txt": "dummy"},
+    # the TypeScript generator (tests/_generate_types_casts_spec.py, ..._type_matches_spec.py) asks
+    # Class.is_subclass_of: its output depends on the derived id-sets rebuilt on unpickling
+    "typescript": {"package_documentation.txt": "Provide SDK with deep class hierarchy.\n",
+                   "package_identifier.txt": "@dummy-works/deep-hierarchy\n"},
 }
 
 HEADER = """From Coq Require Import List NArith Bool Arith.
@@ -239,7 +246,7 @@ def enc_result(res: Dict[str, Any], fps: Ids, msgs: Ids) -> Tuple[int, int]:
 def corpus_histories() -> List[List[Tuple[str, bool]]]:
     import random
     rng = random.Random(23)
-    a = gen.valid_model(rng, tag="corpus-a")
+    a = gen.deep_model(rng, tag="corpus-a")   # inheritance chain of depth >= 3 and a diamond
     b = gen.edit_model(random.Random(1), a)
     bad = gen.break_model(random.Random(2), a)
     return [
@@ -265,7 +272,8 @@ def streams(ctx: lib.Ctx) -> None:
     ref_hists = [[(t, False)] for t in texts]
     all_h = ref_hists + hists
     version, outs = parallel_impl("cache_hist.py", "histories",
-                                  [[[t, f] for t, f in h] for h in all_h], chunk=5, workers=8)
+                                  [[[t, f] for t, f in h] for h in all_h], chunk=8, workers=8,
+                                  extra={"isolation": "inproc", "fork_first": 1})
     ref_out = outs[:len(ref_hists)]
     h_out = outs[len(ref_hists):]
     fps, msgs = Ids(), Ids()
@@ -415,8 +423,9 @@ def streams(ctx: lib.Ctx) -> None:
     n_cli = ctx.n(5, 40)
     scen = []
     for k in range(n_cli):
-        h = hists[k % len(hists)] if k < len(hists) else gen.history(rng)
-        target = "jsonschema" if k % 3 else "python"
+        # k = 0: corpus history 1 = (deep model: cold, warm, uncached) through the TypeScript target
+        h = hists[(k + 1) % len(hists)] if k < len(hists) else gen.history(rng)
+        target = ("typescript", "jsonschema", "python", "typescript", "jsonschema")[k % 5]
         scen.append({"target": target, "snippets": SNIPPETS[target], "runs": [[t, f] for t, f in h[:4]]})
     # uncached reference of every (text, target): a single run without the option, fresh TMPDIR
     ref_keys = []
@@ -425,7 +434,8 @@ def streams(ctx: lib.Ctx) -> None:
             if (t, s["target"]) not in ref_keys:
                 ref_keys.append((t, s["target"]))
     ref_scen = [{"target": tg, "snippets": SNIPPETS[tg], "runs": [[t, False]]} for t, tg in ref_keys]
-    _, cli_out = parallel_impl("cache_cli.py", "scenarios", ref_scen + scen, chunk=2, workers=8)
+    _, cli_out = parallel_impl("cache_cli.py", "scenarios", ref_scen + scen, chunk=4, workers=8,
+                              extra={"isolation": "inproc", "fork_first": 1})
     cli_ref = {k: o["runs"][0] for k, o in zip(ref_keys, cli_out[:len(ref_scen)])}
 
     def view(r):
